@@ -27,6 +27,7 @@ func (m *idealKeyMAC) tag(data []byte) []byte {
 			msg = append(append([]byte{}, data...), 0)
 		}
 	}
+	p = m.k.WithHead(p)
 	x := byte(0)
 	for _, b := range msg {
 		x ^= b
@@ -102,4 +103,26 @@ func VerifH_factory_mac() {
 		verifrt.Assert(len(ev) == 1 && ev[0].Failure, "verify failure logged")
 		verifrt.Reach("rejected")
 	}
+}
+
+// A RAW key's genuine tag verifies even when its first five bytes happen to equal the output
+// prefix of another ENABLED key of the keyset (the tag bytes of a RAW key are arbitrary).
+func VerifH_factory_mac_rawcollision() {
+	rec := verifh.InstallMonitoring()
+	ks := verifh.SymbolicKeyset(factoryMax(), []int{0, 1, 2, 3}, true)
+	raw, collides := verifh.RawCollisionSetup(ks)
+	verifrt.Assume(raw >= 0)
+	m, err := NewWithConfig(ks.Handle, stubConfig{})
+	verifrt.Assert(err == nil, "NewWithConfig succeeds")
+	data := verifrt.Bytes("data", verifrt.Choice("dn", 2))
+	x := (&idealKeyMAC{k: ks.Keys[raw], full: true}).tag(data)
+	mark := len(rec.Events)
+	err = m.VerifyMAC(x, data)
+	verifrt.Assert(err == nil, "a RAW key's genuine tag verifies whatever its leading bytes are")
+	ev := rec.Since(mark, "verify")
+	verifrt.Assert(len(ev) == 1 && !ev[0].Failure && ev[0].KeyID == ks.Keys[raw].ID, "verify success logged once, naming the RAW key")
+	if collides {
+		verifrt.Reach("collision")
+	}
+	verifrt.Reach("end")
 }
